@@ -3,6 +3,7 @@
 package main
 
 import (
+	"math"
 	"fmt"
 	"math/big"
 	"sort"
@@ -418,7 +419,7 @@ func genC09(c *Ctx) {
 	for _, e_kname := range ordered(byteShapes(c, 16)) {
 		kname, k := e_kname.k, e_kname.v
 		_, _ = kname, k
-		for _, out := range []int{-1 << 40, -1, 0, 1, 168, 1 << 16} {
+		for _, out := range []int{math.MinInt64, math.MinInt64 + 1, -(1 << 62) + 128, -(1 << 62), -(1 << 61), -(1 << 61) + 16, -(1 << 60), -(1 << 60) - 1, -1 << 40, -(1 << 32), -(1 << 31), -1, 0, 1, 168, 1 << 16} {
 			c.probe("NewKMAC_128", fmt.Sprintf("key=%s out=%d", kname, out), false, func() (string, error) {
 				hh, err := hash.NewKMAC_128(k, k, out)
 				if err == nil {
